@@ -90,10 +90,13 @@ PROPS = {
                        " must recognise them as a crash image of its file state and its real recovery must yield the observed prefix. About a th"
                        "ird of the crash points of sync configurations are preceded by an inversion preamble so that ~20 % of the crash images h"
                        "ave file-number order different from age order (p1r.files.inverted; with the seeded C02-c02a 7 of 250 quick cases fail)."),
-        "level_note": ("Trusted: Lean kernel; P1 abstracts records to logical after-images (physical record layout, index/value tables "
-                       "tied by correspondence only); crash points inside a single file operation are represented by (j, n) in the model "
-                       "and sampled at step boundaries + log-tail cuts on the implementation; page-granular power loss is C12; damaged "
-                       "logs are C13."),
+        "level_note": ("Trusted: Lean kernel; P1 abstracts records to logical after-images (physical record layout, index/value tables tied by c"
+                       "orrespondence only); crash points inside a single file operation are represented by (j, n) in the model and sampled at s"
+                       "tep boundaries + log-tail cuts on the implementation; page-granular power loss is C12; damaged logs are C13. The mixed-c"
+                       "olumn harness c02x replays its histories on the P1 / MultiTreeCrash models with the POSTULATED crashRecover (prefix supp"
+                       "lied by the harness and checked for admissibility); the file-level recovery model (Recover.lean, driver p1r) is fed by t"
+                       "he p1 harness only. Props/C02x.lean is about single-operation commits with monotone addresses; crash recovery of multi-o"
+                       "peration tree transactions with address reuse is covered by the c02x correspondence and oracle, not by a theorem."),
         "lean": ["Pdb.Props.C02", "Pdb.Props.C02Real", "Pdb.Props.C01b", "Pdb.Props.C02x", "Pdb.Proofs.Order", "Pdb.Props.C02RealWal"],
         "harness": [{"cmd": "p1", "quick": 250, "thorough": 15000},
                     {"cmd": "c02x", "quick": 450, "thorough": 4000, "timeout": 7200}],
@@ -124,8 +127,10 @@ PROPS = {
                        "2^32-1 saturation bound the stored count equals the property's own counter), C07_saturates, C07_table_counts; "
                        "proved from the pipeline invariant under the explicit preimage contract. Tied to the code by generated "
                        "set/reference/dereference histories on hash and btree rc columns with crashes and reopens."),
-        "level_note": ("Trusted: Lean kernel; P1 abstraction; the preimage contract (value is a function of the key) is a hypothesis; "
-                       "value iteration is compared on the implementation only (iter_column_while)."),
+        "level_note": ("Trusted: Lean kernel; P1 abstraction; the preimage contract (value is a function of the key) is a hypothesis; value iter"
+                       "ation is compared on the implementation only (iter_column_while). In the r5 correspondence reads made while commits are "
+                       "queued (about 46 %) are judged by the overlay-aware oracle only; drained reads and stored counters are compared with the"
+                       " model."),
         "lean": ["Pdb.Props.C07", "Pdb.Props.C07b", "Pdb.Props.RefineRc"],
         "harness": [{"cmd": "p1", "quick": 250, "thorough": 15000}, {"cmd": "r5", "quick": 60, "thorough": 600}],
         "rule": P1_RULE,
@@ -314,7 +319,9 @@ PROPS = {
                        "DerefLive; what happens outside them is stated by the witnesses; ref-count table growth exercised through the hook verif"
                        "::set_min_ref_count_bits (2..16 chunks); value-table slot chains / ref-count table pages / WAL records below the heap mo"
                        "del are tied by correspondence only; restarts are clean reopens (a run of process steps in the model), crash recovery of"
-                       " multitree columns is not covered here; A-hash for root keys."),
+                       " multitree columns is not covered here; A-hash for root keys. C10T_rc_tables_refine models a reindex pass of the ref-cou"
+                       "nt tables as one atomic step (whole front table copied and dropped); batches interleaved with count changes are covered "
+                       "by per-entry lemmas and by the dump checker on real tables, not by the run theorem."),
         "lean": ["Pdb.Props.C10", "Pdb.Props.C14DumpRc"],
         "harness": [{"cmd": "c10", "quick": 400, "thorough": 6000, "max_search": 20000}],
         "rule": ("histories from SplitMix64 states on a Db with 1..3 multitree columns (variants append_only / ref_counted roots / plain) "
@@ -585,17 +592,22 @@ PROPS = {
                        "ode_plan / Node::from_encoded. Node bytes (Props/C04d): C04_node_roundtrip / _layout / _decode_total / _reencodes for wr"
                        "ite_node_plan / Node::from_encoded; the driver runs decoder AND encoder on the real entry bytes (`enc=same` expected for"
                        " every real node; all nodes of dumps of at most 64 nodes / 32 KiB are sent)."),
-        "level_note": ("Trusted: Lean kernel; the rule 'a record that writes a value table of the column moves last_record_id' of the "
-                       "pipeline model is tied by correspondence only (model driven by the same commits / stage steps / iterator calls as the "
-                       "real Db, also the unpatched model against the unpatched crate: 0 disagreements); the literal stack cursor is ALSO run "
-                       "on every DUMPED real tree with the pipeline's overlay and record id (c04b cursor: its keys = the real iterator's keys, "
-                       "~60 000 steps per quick run), raw node bytes of every dumped node equal an independent re-encoding and are decoded by the "
-                       "Lean model of Node::from_encoded (c04b node); "
-                       "the literal BTreeIterState stack cursor is proved to refine that abstract cursor (C04b_cursor_refines / _total / _next_backend), "
-                       "the batching loop of Node::change is proved equal to one descent per change (C04b_batch_refines, C04b_batch_refines_tx) and the "
-                       "address indirection is proved leak-free (C04b_address_indirection / _release / _no_leak); the batched model's tree is compared "
-                       "node by node (separator hashes) with the dumped real tree after every processed commit (c04b tree), and the Lean checker "
-                       "checkTree (sound for TreeInv: C14Dump_tree_sound) is evaluated on every dump; value storage below the tree is C06."),
+        "level_note": ("Trusted: Lean kernel; the rule 'a record that writes a value table of the column moves last_record_id' of the pipeline m"
+                       "odel is tied by correspondence only (model driven by the same commits / stage steps / iterator calls as the real Db, als"
+                       "o the unpatched model against the unpatched crate: 0 disagreements); the literal stack cursor is ALSO run on every DUMPE"
+                       "D real tree with the pipeline's overlay and record id (c04b cursor: its keys = the real iterator's keys, ~60 000 steps p"
+                       "er quick run), raw node bytes of every dumped node equal an independent re-encoding and are decoded by the Lean model of"
+                       " Node::from_encoded (c04b node); the literal BTreeIterState stack cursor is proved to refine that abstract cursor (C04b_"
+                       "cursor_refines / _total / _next_backend), the batching loop of Node::change is proved equal to one descent per change (C"
+                       "04b_batch_refines, C04b_batch_refines_tx) and the address indirection is proved leak-free (C04b_address_indirection / _r"
+                       "elease / _no_leak); the batched model's tree is compared node by node (separator hashes) with the dumped real tree after"
+                       " every processed commit (c04b tree), and the Lean checker checkTree (sound for TreeInv: C14Dump_tree_sound) is evaluated"
+                       " on every dump; value storage below the tree is C06. Scope notes (second audit): flush / enact / clean are identity step"
+                       "s of the executable pipeline Drv, so the log-overlay / file mixture of the property is exercised by the harness (real st"
+                       "age steps between the model's lines), not distinguished by the theorems; the record-id rule (which commits move the colu"
+                       "mn's record id) is an assumption of the model checked only through iterator answers; on ref-counted btree columns a queu"
+                       "ed Dereference is not mirrored in the commit overlay (C04r_lag_witness): readers see it after process_commits, which is "
+                       "C07's carve-out, not a C04 violation."),
         "lean": ["Pdb.Props.C04", "Pdb.Props.C04b", "Pdb.Props.C04c", "Pdb.Props.C04r", "Pdb.Props.C04d", "Pdb.Props.C14Dump"],
         "harness": [{"cmd": "c04", "quick": 150, "thorough": 1500, "max_search": 3000}],
         "rule": ("one SplitMix64 state per case: btree column (plain / lz4; one case in four ref_counted + preimage: Set / Dereference / "
@@ -716,8 +728,14 @@ PROPS = {
                        "y_reindex_is_trigger, C09_replay_drop_is_enactDrop). Model tied by differential runs (set/del/get/stat/slots/crashto) an"
                        "d a BTreeMap + prefix oracle with crash images at every growth phase, incl. images with 1..3 enacted-but-unreclaimed log"
                        " files (counters crash.retained_enacted_*) and a half-enacted growth record."),
-        "level_note": ("Trusted: Lean kernel; logical-state model (pipeline stages are P1); single-slot values (tier 255 by structural checks only); A-tail; "
-                       "hook verif_dump."),
+        "level_note": ("Trusted: Lean kernel; logical-state model (pipeline stages are P1); single-slot values (tier 255 by structural checks on"
+                       "ly); A-tail; hook verif_dump. Scope notes (second audit): C09_replay_absorbs is about a stand-alone structural model of "
+                       "replay over index files (Pdb/Model/IndexReplay.lean: tables, queue, absolute after-images, DropTable), tied to the index"
+                       " model only by two lemmas on (current bits, queue bits); it is not executed by the driver. The c09 crash lines `crashto "
+                       "<n> <g>` carry n (records that survive) and g (growths re-detected at open) FITTED by the harness from the recovered sta"
+                       "te, so an unjustified growth at recovery would be absorbed as a relaunch. F28 is a liveness / resource defect (every key"
+                       " stays readable while the index keeps growing); C09_full_statement_false_65 is stated for successful bounded runs (shown"
+                       " to exist for the first passes by evaluation: bits 17..20 after 0..3 passes, as on the crate)."),
         "rule": ("seed%16: directed sse2-neighbour / crash-after-drop / move-into-full-page, multi-batch (>8192 entries), steady workload; seed%32 = 6: "
                  "65 keys of one 50-bit class resp. (seed bit 5) 64 keys + stale entries, bounded at 19 bits (known finding F28); 7: twin keys "
                  "with equal stored tail (known finding F29); 8: crash with the enacted growth record retained resp. (seed bit 5) a half-enacted "
